@@ -463,9 +463,10 @@ def pristine_outcome(name, rng_seed):
     CTL.configure({"policy": "fifo"})
     out = run_op(spec, Heap(), rng_seed, cb=spec.cb)
     # second execution (no longer pristine; used only to measure the op's length for fault placement)
-    counter = LineInterrupt(None)
+    lines = set()
+    counter = LineInterrupt(None, record=lines)
     run_op(spec, Heap(), rng_seed, cb=spec.cb, fault_ctx=counter)
-    return {"outcome": out, "N": counter.count}
+    return {"outcome": out, "N": counter.count, "lines": sorted(lines)}
 
 
 def all_keys():
@@ -512,8 +513,56 @@ def build_table(farm, keys, harness_errors):
     return table
 
 
+PREP_INFO = {}
+
+
+def executable_lines():
+    """(file, line) of every line of pyrepseq that carries code, from the compiled code objects."""
+    import os
+
+    from .core import repo_root
+
+    root = os.path.join(repo_root(), "pyrepseq")
+    out = set()
+    for dirpath, _, files in os.walk(root):
+        if "tcrdist" in dirpath.split(os.sep):
+            continue  # cannot be imported here (tcrdist3 absent)
+        for f in files:
+            if not f.endswith(".py"):
+                continue
+            path = os.path.join(dirpath, f)
+            rel = os.path.relpath(path, root)
+            try:
+                code = compile(open(path).read(), path, "exec")
+            except Exception:
+                continue
+            stack = [code]
+            while stack:
+                c = stack.pop()
+                if c.co_flags & 0x1:  # CO_OPTIMIZED: function bodies only (module and class bodies run at import)
+                    for _, _, ln in c.co_lines():
+                        if ln is not None and ln != c.co_firstlineno:
+                            out.add((rel, ln))
+                for k in c.co_consts:
+                    if hasattr(k, "co_lines"):
+                        stack.append(k)
+    return out
+
+
 def prepare(farm, batch_seed, tier, cfg, harness_errors):
     table = build_table(farm, all_keys(), harness_errors)
+    covered = set()
+    for v in table.values():
+        for fl in v.pop("lines", []):
+            covered.add(tuple(fl))
+    ex = executable_lines()
+    per = {}
+    for f, ln in ex:
+        per.setdefault(f, [0, 0])[1] += 1
+    for f, ln in covered & ex:
+        per[f][0] += 1
+    PREP_INFO["catalogue_line_reach"] = {"function_body_lines_executed": len(covered & ex), "function_body_lines_total": len(ex),
+                                         "per_file": {f: "%d/%d" % tuple(v) for f, v in sorted(per.items())}}
     ctx = {"pristine": table}
     if cfg.get("cold_check"):
         cold_check(table, harness_errors)
@@ -528,6 +577,8 @@ def prepare_replay(farm, trace, errs):
             seen.add(k)
             keys.append({"op": op["op"], "rng_seed": op.get("rng_seed")})
     table = build_table(farm, keys, errs)
+    for v in table.values():
+        v.pop("lines", None)
     if errs:
         raise HarnessError("pristine table for replay failed: %r" % errs[:2])
     return {"pristine": table}
@@ -592,6 +643,7 @@ def finish_coverage(cov, stats, sets):
     for a, b in pairs:
         if any((x + ">" + y) in seen for x in rk[a] for y in rk[b]):
             covered += 1
+    cov.update(PREP_INFO)
     cov["catalogue"] = {"templates": len(ops), "groups": len(set(o.group for o in ops.values())),
                         "heap_objects": len(_cat().HEAP), "pristine_keys": len(all_keys())}
     cov["same_group_ordered_pairs"] = {"covered": covered, "total": len(pairs)}
